@@ -911,24 +911,14 @@ shift(bitint383_t cand[static 3U], const unsigned int y, echs_shift_t sh)
 		bitint383_t res[3U] = {0U};
 		int c;
 
-		if (UNLIKELY(echs_shift_dvalue(sh))) {
-			/* merge all the off-year candidates from above */
-			for (size_t i = 0U; i < countof(res->pos); i++) {
-				cand[0U].pos[i] ^= cand[1U].pos[i];
-				cand[0U].neg[i] ^= cand[1U].neg[i];
-			}
-			for (size_t i = 0U; i < countof(res->pos); i++) {
-				cand[0U].pos[i] ^= cand[2U].pos[i];
-				cand[0U].neg[i] ^= cand[2U].neg[i];
-			}
-		}
-
-		/* go through candidates and shift */
-		for (bitint_iter_t ci = 0UL; (c = bi383_next(&ci, cand), ci);) {
+		/* go through candidates and shift, sets 1 and 2 hold what a
+		 * preceding day shift moved into the year before and after */
+		for (size_t k = 0U; k < 3U; k++)
+		for (bitint_iter_t ci = 0UL; (c = bi383_next(&ci, &cand[k]), ci);) {
 			const struct md_s md = unpack_cand(c);
 			int nu_d = md.d;
 			int nu_m = md.m;
-			unsigned int nu_y = y;
+			unsigned int nu_y = y + (k == 2U) - (k == 1U);
 			echs_wday_t w = ymd_get_wday(nu_y, nu_m, nu_d);
 			unsigned int u5, u7;
 			int nu_b = b;
